@@ -237,6 +237,20 @@ def apply_op(env, c, op, arg, sym, angles, tag, canary=False):
         unchanged()
         check_invariant(env, c, L, width=w0)
         return c
+    if op.startswith("simulate:"):
+        # a read-only operation on the real backend (concrete parameters): MEASURE circuits legitimately record results
+        # in the circuit (success probabilities / applied gates), so only unitary circuits are used here
+        from tangelo.linq import get_backend
+        from symx import shim
+        target = op.split(":")[1]
+        try:
+            with shim.concrete_mode():
+                get_backend(target).simulate(c)
+        except (ValueError, KeyError, NotImplementedError, TypeError, AttributeError):
+            pass
+        unchanged()
+        check_invariant(env, c, L, width=w0)
+        return c
     raise ValueError(op)
 
 
@@ -369,6 +383,8 @@ def _op_instances(rnd, spec, n_qubits, full):
     qs = [0, 1, 2, 3]
     menu = gate_menu(qs)
     out = [(op, None, False) for op in OPS_PLAIN]
+    if _numeric(spec) and not any(g[0] in ("MEASURE", "CMEASURE") for g in spec) and not any(isinstance(g[3], str) for g in spec):
+        out += [("simulate:cirq", None, False), ("simulate:sympy", None, False)]
     out.append(("mul", 2, False))
     out.append(("reindex_qubits", rnd.randint(0, 9), False))
     adds = rnd.sample(menu, 3 if full else 1) + [("CNOT", (1,), (0, 3), None, False)]
